@@ -146,6 +146,12 @@ func EncoderOf(name string) encode.Encoder {
 
 // typedValues decodes the encoded bytes with the encoder and builds the typed
 // slice NewSlimTrie expects.
+// the key slice handed to the last NewSlimTrie (trie.renew builds again from the same backing array)
+var (
+	lastKeySlice []string
+	renewKeys    bool
+)
+
 // the buffer the current [][]byte values are sliced from, and its contents before the build
 var sharedValBuf, sharedValCopy []byte
 
@@ -282,6 +288,12 @@ func b01(t string) bool { return t == "1" }
 func interp(toks []string) string {
 	s := S
 	switch toks[0] {
+	case "trie.renew":
+		// the caller edits the key slice of the PREVIOUS build in place and builds again from the same slice
+		// (same backing array, same length): whatever the builder remembered about that slice is stale
+		renewKeys = true
+		defer func() { renewKeys = false }()
+		return interp(append([]string{"trie.new"}, toks[1:]...))
 	case "trie.new":
 		flags, encName := toks[1], toks[2]
 		enc := EncoderOf(encName)
@@ -297,6 +309,12 @@ func interp(toks []string) string {
 				keys = append(keys, string(unhex(rest[i])))
 				vals = append(vals, unhex(rest[i+1]))
 			}
+		}
+		if renewKeys && len(lastKeySlice) == len(keys) && len(keys) > 0 {
+			copy(lastKeySlice, keys)
+			keys = lastKeySlice
+		} else {
+			lastKeySlice = keys
 		}
 		tv := typedValues(enc, vals)
 		opts := ParseOpt(flags)
